@@ -332,6 +332,12 @@ theorem globalDims_eq_decl (c : Cfg) (ps : List (List Nat))
     have hn : dims.length + negMod dims.length c.ndev ≠ 0 := by omega
     rw [if_neg hn, if_neg hm]
 
+theorem not_shardedInitRejects (c : Cfg) (ps : List (List Nat)) (h : ¬ (shardedInitRejects c ps = true)) :
+    ¬ (c.compRank ≠ 0 ∧ c.r + 2 ≥ (globalDims c ps).2) := by
+  intro ⟨h1, h2⟩
+  apply h
+  simp [shardedInitRejects, h1, h2]
+
 theorem shardedInit_decl (c : Cfg) (ps : List (List Nat)) (L : ShardedLayout)
     (hpos : ∀ d ∈ ps.flatMap (statDims c), 0 < d) (h : shardedInit c ps = .ok L) :
     shapeDtypeDecl c ps = .ok (shardedSig L) := by
@@ -348,9 +354,12 @@ theorem shardedInit_decl (c : Cfg) (ps : List (List Nat)) (L : ShardedLayout)
     cases hgd : globalDims c ps with
     | mk n ms =>
       simp only [hgd] at h ⊢
-      by_cases hr : c.compRank ≠ 0 ∧ c.r + 2 ≥ ms
-      · simp [hr] at h
-      · simp only [hr, if_false, pure, Except.pure, Except.ok.injEq] at h ⊢
+      by_cases hr' : shardedInitRejects c ps = true
+      · simp [hr'] at h
+      · have hr : ¬ (c.compRank ≠ 0 ∧ c.r + 2 ≥ ms) := by
+          have := not_shardedInitRejects c ps hr'
+          rwa [hgd] at this
+        simp only [hr', hr, Bool.false_eq_true, if_false, pure, Except.pure, Except.ok.injEq] at h ⊢
         subst h
         simp [shardedSig, leafSig, countLeaf, f32Leaf, DT.name, localSig_eq_declLocal, List.map_map, Function.comp_def]
 
@@ -407,9 +416,9 @@ theorem pspecDecl_skeleton (c : Cfg) (ps : List (List Nat)) (pspecs : List (List
     cases hgd : globalDims c ps with
     | mk n ms =>
       simp only [hgd] at h
-      by_cases hr : c.compRank ≠ 0 ∧ c.r + 2 ≥ ms
+      by_cases hr : shardedInitRejects c ps = true
       · simp [hr] at h
-      · simp only [hr, if_false, pure, Except.pure, Except.ok.injEq] at h
+      · simp only [hr, Bool.false_eq_true, if_false, pure, Except.pure, Except.ok.injEq] at h
         subst h
         have hl := skeleton_locals c ps pspecs 0 hspec
         simp only [pspecDecl, shardedSig, skeleton, List.map_cons, List.map_nil, List.map_map, Function.comp_def, leafSig]
@@ -547,9 +556,9 @@ theorem shardedStep_init (c : Cfg) (ps : List (List Nat)) (L : ShardedLayout) (h
     cases hgd : globalDims c ps with
     | mk n ms =>
       simp only [hgd] at h hbound hglob ⊢
-      by_cases hr : c.compRank ≠ 0 ∧ c.r + 2 ≥ ms
+      by_cases hr : shardedInitRejects c ps = true
       · simp [hr] at h
-      · simp only [hr, if_false, pure, Except.pure, Except.ok.injEq] at h
+      · simp only [hr, Bool.false_eq_true, if_false, pure, Except.pure, Except.ok.injEq] at h
         subst h
         have hloc : ((ps.zip (indexStarts c ps 0)).map fun x => localOf c x.1 x.2) = localsOf c ps 0 := rfl
         unfold shardedStep
